@@ -203,7 +203,8 @@ fn pending_move_scenario() -> BoxedStrategy<Vec<Op>> {
             }
             v.push(Op::BulkFill { boff: b, n: 16, conn: 0xFFFE, first_filler });
             let waiting = KSel { boff: b, idx: small(20) };
-            v.push(Op::Insert { k: waiting, net: Net::Filler((first_filler + 3) % 8), seq: 1, connected: true, incoming: false });
+            // (the 8 filler subnets are used up by the fill, 2 per subnet: the waiting node starts in another hot subnet)
+            v.push(Op::Insert { k: waiting, net: Net::Hot((hot + 1) % 3), seq: 1, connected: true, incoming: false });
             if via_insert {
                 v.push(Op::Insert { k: waiting, net: Net::Hot(hot), seq: 2, connected: true, incoming: false });
             } else {
@@ -377,7 +378,7 @@ impl Property for C16 {
     type Case = Case;
     const ID: &'static str = "C16";
     fn cases(tier: Tier) -> u64 {
-        tier.pick(3_000, 120_000)
+        tier.pick(6_000, 150_000)
     }
     fn strategy(tier: Tier) -> BoxedStrategy<Case> {
         let n = tier.pick(150usize, 250usize);
